@@ -213,6 +213,9 @@ func (c09) Generate(r *core.Rng, run int, tier string) *core.History {
 		h.Strs["sub"], h.Strs["key"] = "nopoll", p.key
 		h.Cfg["maxdepth"] = 1000
 		h.Cfg["fireat"] = int64(1 + r.Intn(200))
+		if p.key == "shared-subarray-compare" {
+			h.Cfg["fireat"] = int64(400 + r.Intn(200)) // after the value is built (about 250 ticks): inside the comparison
+		}
 		h.Events = []core.Event{{Ev: "prelude", Text: p.prelude}, {Ev: "program", Text: p.text, Key: p.key}}
 		return h
 	}
@@ -516,6 +519,8 @@ var c09NoPoll = []c09prog{
 	{"run-then-loop", "", `run("true"); for true { }`, 1, true},
 	{"run-error-then-loop", "", `catch(run("/nonexistent/c09cmd")); for true { }`, 1, true},
 	{"exec-then-loop", "", `exec("true"); for true { }`, 1, true},
+	// a Go-level walk over a value with 2^40 shared sub-arrays (41 small arrays in memory): == never re-enters the evaluator
+	{"shared-subarray-compare", "", `sa9 = [1]; for 40 { sa9 = [sa9, sa9] }; sa9 == sa9`, 1, true},
 }
 
 func (c09) execNoPoll(h *core.History) *core.Outcome {
@@ -535,7 +540,11 @@ func (c09) execNoPoll(h *core.History) *core.Outcome {
 		return o
 	}
 	self, _ := os.Executable()
-	ctx, cancel := context.WithTimeout(context.Background(), 45*time.Second)
+	watchdog := 45 * time.Second
+	if key == "shared-subarray-compare" {
+		watchdog = 10 * time.Second // a recorded finding that always hangs: 2^40 steps are not a matter of seconds either way
+	}
+	ctx, cancel := context.WithTimeout(context.Background(), watchdog)
 	defer cancel()
 	cmd := exec.CommandContext(ctx, self, "worker", "c09d", strconv.FormatInt(h.C("maxdepth"), 10), strconv.FormatInt(h.C("fireat"), 10), prelude, prog)
 	var ob, eb bytes.Buffer
@@ -548,7 +557,7 @@ func (c09) execNoPoll(h *core.History) *core.Outcome {
 	case ctx.Err() != nil:
 		class = "hung"
 		o.Viol = &core.Violation{Oracle: "returns-after-deadline", Sig: "C09|nopoll|returns-after-deadline|" + key,
-			Detail: fmt.Sprintf("%q with the virtual deadline at tick %d: the evaluation never polled the context again and did not return (child killed after 45 s of real time)", prog, h.C("fireat"))}
+			Detail: fmt.Sprintf("%q with the virtual deadline at tick %d: the evaluation never polled the context again and did not return (child killed by the watchdog after 10-45 s of real time)", prog, h.C("fireat"))}
 	case err != nil:
 		class = "died"
 		o.Viol = &core.Violation{Oracle: "process-survives", Sig: "C09|nopoll|process-survives|" + key, Detail: fmt.Sprintf("%q: %v %s", prog, err, fatalLines(eb.String()))}
